@@ -307,6 +307,11 @@ class World(WsWorld):
             self.peer.send(encode_frame(8, payload, mask=mask))
             self.peer_sent_close = True
             self.run.fault("peer-close:" + peer_close_validity(payload))
+            if ch.flag("second-close-frame-right-behind", 0.2):
+                # a misbehaving peer repeats itself with another (valid) code and reason: whatever follows its close
+                # frame is to be discarded
+                self.peer.send(encode_frame(8, struct.pack("!H", 4001) + b"second close frame", mask=mask))
+                self.run.fault("peer-close:duplicate")
         elif op == "data":
             self.peer.send(encode_frame(ch.pick((1, 2), "op"), b"d" * ch.pick((0, 3, 130), "len"), mask=mask))
         elif op == "fragment":
@@ -402,9 +407,11 @@ class World(WsWorld):
                 how = "own-drop"
             run.violate("C05.clean-means-both", "clean-without-own-close-frame-written:" + how, ep.name)
         if got_peer_close and all(peer_close_validity(pl) == "valid" for pl in ep.rx_close_frames):
-            # an adversarial peer may send several close frames; the report must be one of them
+            # an adversarial peer may send several close frames: the peer's close is the first one - whatever follows a
+            # close frame is discarded (RFC 6455 section 1.4; the same rule that keeps messages after a close frame
+            # from being delivered), so it cannot change what is reported
             cands = []
-            for payload in ep.rx_close_frames:
+            for payload in ep.rx_close_frames[:1]:
                 pcode = struct.unpack("!H", payload[:2])[0] if len(payload) >= 2 else None
                 preason = payload[2:].decode("utf8") if len(payload) > 2 else None
                 cands.append((pcode, preason))
